@@ -6,6 +6,7 @@ import (
 	"context"
 	"encoding/json"
 	"fmt"
+	"io"
 	"net/http"
 	"strings"
 	"time"
@@ -994,6 +995,99 @@ func (x *c18) eventAsJSONString(worlds map[gmsl.RoomVersion]*world) {
 	}
 }
 
+type c18Transport func(*http.Request) (*http.Response, error)
+
+func (f c18Transport) RoundTrip(r *http.Request) (*http.Response, error) { return f(r) }
+
+// wellKnownReplies: what a remote server answers to the /.well-known/matrix/server request - status, body and the
+// Cache-Control / Expires header lines the cache lifetime is read from - is remote data too. A directed list of
+// malformed header values and bodies, then byte mutations of well-formed ones, through LookupWellKnown with the
+// process's default transport scripted.
+func (x *c18) wellKnownReplies(r *gen.Rand, n int) {
+	c := x.c
+	type reply struct {
+		cc      []string
+		expires string
+		body    []byte
+		status  int
+	}
+	var cur reply
+	old := http.DefaultTransport
+	http.DefaultTransport = c18Transport(func(req *http.Request) (*http.Response, error) {
+		h := http.Header{}
+		for _, v := range cur.cc {
+			h.Add("Cache-Control", v)
+		}
+		if cur.expires != "" {
+			h.Set("Expires", cur.expires)
+		}
+		return &http.Response{StatusCode: cur.status, Header: h, Body: http.NoBody, Request: req, ContentLength: -1}, nil
+	})
+	defer func() { http.DefaultTransport = old }()
+	goodBody := []byte(`{"m.server":"delegated.example:8448"}`)
+	ccDirected := []string{`max-age="`, `max-age=`, `max-age`, `=`, `"`, `""`, `max-age=""`, `max-age="\`, `max-age="\"`, `,`, `,,,`, `max-age=-1`, `max-age=1e3`, "max-age=\x00", `"max-age=5`, `max-age="5`, `max-age=5"`,
+		`max-age=" "`, `max-age= "5"`, `max-age="5" `, `\`, `a="\`, `a="b\",max-age="`, `MAX-AGE="`, ` max-age="`, "max-age=\"\t", `max-age=99999999999999999999999999`, `max-age=-99999999999999999999999999`, `max-age=+5`,
+		"public, max-age=\"3600\", community=\"a\\\"b\"", strings.Repeat(`a="`, 5000), strings.Repeat(",", 20000)}
+	expDirected := []string{"", "0", "-1", "Mon", "Mon, 02 Jan 2006 15:04:05 GMT", "Mon, 02 Jan 2006 15:04:05", "Monday, 02-Jan-06 15:04:05 GMT", "Mon Jan  2 15:04:05 2006", "Mon, 99 Jan 2006 15:04:05 GMT", "Mon, 02 Jan 99999 15:04:05 GMT", strings.Repeat("9", 400)}
+	bodyDirected := [][]byte{goodBody, []byte(`{"m.server":null}`), []byte(`{"m.server":5}`), []byte(`{"m.server":{}}`), []byte(`[]`), []byte(`null`), nil, []byte(`{"m.server":""}`), []byte(`{"m.server":":"}`), []byte(`{"m.server":"[::1"}`),
+		[]byte(strings.Repeat("[", 20000)), []byte(`{"M.SERVER":"x.example"}`), []byte("{\"m.server\":\"a\xff\"}")}
+	run := func(name string, rep reply) {
+		c.Case("well-known-reply:"+name, map[string]any{"cache_control": rep.cc, "expires": rep.expires, "body_hex": fmt.Sprintf("%x", truncateBytes(rep.body, 200)), "status": rep.status}, func() {
+			cur = rep
+			c.NontrivialBytes([]byte(fmt.Sprintf("wk|%q|%q|%x|%d", rep.cc, rep.expires, truncateBytes(rep.body, 64), rep.status)))
+			c.Count("well_known_replies")
+			x.step("LookupWellKnown", func() {
+				// (the body is handed over by a fresh reader per request)
+				tr := http.DefaultTransport
+				http.DefaultTransport = c18Transport(func(req *http.Request) (*http.Response, error) {
+					resp, err := tr.RoundTrip(req)
+					if resp != nil {
+						resp.Body = io.NopCloser(bytes.NewReader(rep.body))
+					}
+					return resp, err
+				})
+				defer func() { http.DefaultTransport = tr }()
+				ctx, cancel := context.WithTimeout(context.Background(), 5*time.Second)
+				defer cancel()
+				_, _ = fclient.LookupWellKnown(ctx, "wk-hostile.example")
+			})
+		})
+	}
+	if c.Shard == 0 {
+		for _, cc := range ccDirected {
+			run("directed-cache-control", reply{cc: []string{cc}, body: goodBody, status: 200})
+			run("directed-cache-control-second-line", reply{cc: []string{"public", cc}, body: goodBody, status: 200})
+		}
+		for _, e := range expDirected {
+			run("directed-expires", reply{expires: e, body: goodBody, status: 200})
+		}
+		for _, b := range bodyDirected {
+			run("directed-body", reply{cc: []string{"max-age=60"}, body: b, status: 200})
+		}
+	}
+	for k := 0; k < n; k++ {
+		rep := reply{cc: []string{string(mutateBytes(r, []byte(gen.Pick(r, []string{`max-age=3600`, `public, max-age="3600", community="a\"b"`, `max-age="`, `no-cache`}))))},
+			expires: string(mutateBytes(r, []byte("Mon, 02 Jan 2026 15:04:05 GMT"))), body: mutateBytes(r, goodBody), status: gen.Pick(r, []int{200, 200, 200, 200, 404, 0, 999})}
+		if r.Chance(0.3) {
+			rep.cc = append(rep.cc, string(mutateBytes(r, []byte(`max-age="10"`))))
+		}
+		// (a header value never holds CR / LF: the transport would not deliver such a line)
+		clean := func(v string) string { return strings.NewReplacer("\r", " ", "\n", " ").Replace(v) }
+		for i := range rep.cc {
+			rep.cc[i] = clean(rep.cc[i])
+		}
+		rep.expires = clean(rep.expires)
+		run("mutated", rep)
+	}
+}
+
+func truncateBytes(b []byte, n int) []byte {
+	if len(b) > n {
+		return b[:n]
+	}
+	return b
+}
+
 func runC18(c *mon.Ctx) {
 	versions := sortedVersions()
 	r := c.Rand("inputs")
@@ -1008,6 +1102,7 @@ func runC18(c *mon.Ctx) {
 	x.keyLengthCases(worlds)
 	x.cyclicReferences(worlds)
 	x.eventAsJSONString(worlds)
+	x.wellKnownReplies(c.Rand("well-known"), c.Scale(800, 80000))
 	x.fieldEnumeration(r, versions, worlds)
 	x.byteMutation(r, versions, worlds, c.Scale(16000, 1600000), c.Scale(16000, 1600000))
 	c.Floor("field_cases_accepted_by_a_parser", 1000)
